@@ -269,6 +269,7 @@ class Exec:
             if isinstance(v, bool): return int(v)
             if z3.is_bool(v): return s.bv(v, t.bits)
             if z3.is_fp(v): return z3.fpToIEEEBV(v)
+            if isinstance(v, NonFinite) or (not isc(v) and z3.is_real(v)): return v     # real-mode double moved through an integer register (struct copies): opaque pass-through
             if not isc(v) and v.size() != t.bits: return z3.Extract(t.bits - 1, 0, v)
             if isc(v): return v & ((1 << t.bits) - 1)
             return v
@@ -486,6 +487,28 @@ class Exec:
         s.stats['solver_s'] += time.time() - t0
         return r == z3.unsat
 
+    def rat_identity(s, st, c):
+        """equalities between real terms that are identities of rational functions (engine/ratfun.py); every symbolic divisor met
+        must be non-zero under the path condition (decided by the solver), otherwise the generic route is taken"""
+        import ratfun
+        conj = c.children() if z3.is_and(c) else [c]
+        need = []
+        for e in conj:
+            if not (z3.is_eq(e) and z3.is_real(e.arg(0))): return False
+            ok, divs = ratfun.identity(e.arg(0), e.arg(1))
+            if not ok: return False
+            need += divs
+        seen = set()
+        for d in need:
+            if d.get_id() in seen: continue
+            seen.add(d.get_id())
+            z = d == z3.RealVal(0)
+            if s.assert_relaxed_unsat(st, z): continue
+            try:
+                if s.sat(st, z) is not None: return False
+            except Violation: return False
+        return True
+
     def sat(s, st, extra=None, soft=False):
         if soft and s.fpmode == 'real' and extra is not None and not isinstance(extra, bool) and (s.vars_of(extra)[2] or getattr(st, 'relaxed', False)):
             st.relaxed = True      # once a real-valued branch was taken on relaxed feasibility the path stays in relaxed mode
@@ -681,6 +704,11 @@ class Exec:
                     except Violation as v2: return ('VIOLATION', v2, results)
                     if v.model is None:
                         s.stats['paths'] += 1; results.append('infeasible'); continue
+                if v.model is None and v.kind == 'bound' and 'visited more than' in v.msg and v.st is not None:
+                    # a loop outran its bound: keep a witness input of this path (a candidate hang is decided by the native replay)
+                    try: v.model = s.sat(v.st, soft=True)
+                    except Violation: v.model = None
+                    if v.model is UNDECIDED: v.model = None
                 return ('VIOLATION', v, results)
         return ('OK', None, results)
 
@@ -1075,6 +1103,13 @@ class Exec:
         if d is not None and x['ty'].k != 'void': L[d] = r
         if nxt is not None: s.jump(st, fr, nxt)
 
+    def exc_vtable(s, st):
+        vt = getattr(st, 'exc_vt', None)
+        if vt is None or vt not in st.objs:
+            vt = s.new_obj(st, 64, 'fake-vtable(std::exception)', kind='zero'); st.exc_vt = vt
+            st.objs[vt].cells[0] = (8, Ptr(-1, s.faddr['__verif_exc_dtor'])); st.objs[vt].cells[8] = (8, Ptr(-1, s.faddr['__verif_exc_dtor'])); st.objs[vt].cells[16] = (8, Ptr(-1, s.faddr['__verif_exc_what']))
+        return vt
+
     def fork_ret(s, st, x, cond, retval, work, post=None):
         """fork a successor of a builtin call: path condition += cond, call result = retval"""
         o = st.fork(); o.pc.append(cond); fr = o.frames[-1]
@@ -1119,6 +1154,7 @@ class Exec:
                     c2 = z3.simplify(c, som=True, som_blowup=100000000, arith_lhs=True)
                     if z3.is_true(c2): s.stats['closed_by_normalisation'] = s.stats.get('closed_by_normalisation', 0) + 1; return 0
                 except z3.Z3Exception: pass
+            if s.fpmode == 'real' and s.rat_identity(st, c): s.stats['closed_by_ratfun'] = s.stats.get('closed_by_ratfun', 0) + 1; return 0
             if s.fpmode == 'real' and len(st.pc) > 8 and s.assert_relaxed_unsat(st, z3.Not(c)): return 0
             m = s.sat(st, z3.Not(c))
             if m is not None: raise Violation('assert', 'harness assertion violated at ' + site, st, m)
@@ -1378,7 +1414,13 @@ class Exec:
                 b = s.load_val(st, Ptr(p.obj, p.off + i), I8)
                 if isc(b):
                     if b == 0: return i
-                else: raise Violation('unsupported', 'strlen over symbolic bytes', st)
+                else:
+                    # a symbolic byte that may be NUL ends the string on a forked path
+                    z = b == z3.BitVecVal(0, 8)
+                    if s.sat(st, z) is not None:
+                        if s.sat(st, z3.Not(z)) is None: return i
+                        s.fork_ret(st, x, z, i, work)
+                        s.assume(st, z3.Not(z))
                 i += 1
         if name == '__cxa_allocate_exception':
             return Ptr(s.new_obj(st, a[0], 'exception'), 0)
@@ -1391,7 +1433,9 @@ class Exec:
             m2 = {'length_error': '_ZTISt12length_error', 'out_of_range': '_ZTISt12out_of_range', 'bad_alloc': '_ZTISt9bad_alloc', 'invalid_argument': '_ZTISt16invalid_argument',
                   'logic_error': '_ZTISt11logic_error', 'bad_function_call': '_ZTISt17bad_function_call', 'bad_array_new_length': '_ZTISt9bad_alloc', 'bad_cast': '_ZTISt8bad_cast'}
             ti = [v for k, v in m2.items() if k in name]
-            st.exc = (Ptr(s.new_obj(st, 16, 'exception'), 0), ti[0] if ti else '_ZTISt9exception')
+            eobj = Ptr(s.new_obj(st, 16, 'exception'), 0)
+            s.store_val(st, eobj, PTR(I8), Ptr(s.exc_vtable(st), 0))
+            st.exc = (eobj, ti[0] if ti else '_ZTISt9exception')
             if os.environ.get('VERIF_DEBUG_THROW'): sys.stderr.write('THROW %s at %s\n' % (name, [f.fn for f in st.frames]))
             raise Throw()
         if name == '__cxa_rethrow': raise Throw()
@@ -1401,11 +1445,7 @@ class Exec:
             p = a[0]; return p.obj
         if re.match(r'_ZNSt\d+(runtime_error|invalid_argument|logic_error|out_of_range|length_error|domain_error|range_error|overflow_error|underflow_error)C[12]E', name):
             # std exception constructed by library code we do not execute: give it a vtable whose what() returns an empty message
-            vt = getattr(st, 'exc_vt', None)
-            if vt is None or vt not in st.objs:
-                vt = s.new_obj(st, 64, 'fake-vtable(std::exception)', kind='zero'); st.exc_vt = vt
-                st.objs[vt].cells[0] = (8, Ptr(-1, s.faddr['__verif_exc_dtor'])); st.objs[vt].cells[8] = (8, Ptr(-1, s.faddr['__verif_exc_dtor'])); st.objs[vt].cells[16] = (8, Ptr(-1, s.faddr['__verif_exc_what']))
-            s.store_val(st, a[0], PTR(I8), Ptr(vt, 0)); return 0
+            s.store_val(st, a[0], PTR(I8), Ptr(s.exc_vtable(st), 0)); return 0
         if re.match(r'_ZNSt\d+(runtime_error|invalid_argument|logic_error|out_of_range|length_error|domain_error|range_error|overflow_error|underflow_error)D[012]E', name): return 0
         if name == '__verif_exc_dtor': return 0
         if name == '__verif_exc_what':
